@@ -32,6 +32,8 @@ type Group struct {
 	Own          bool     // ownership discipline of deep copies (C17)
 	Narrow       bool     // value-changing integer conversions must be provably exact (C13)
 	Share        bool     // sharing discipline of codecs (C18)
+	SkipObl      string   // regexp over obligation names that belong to another property's claim
+	OnlyObl      string   // regexp: of the post/cover obligations only these count (other classes unaffected)
 }
 
 var safetyClasses = []string{"post", "unwind", "alloc", "index", "nil", "typeassert", "div", "shift", "panic", "pre", "auto-inv-init", "auto-inv-step", "auto-decreases", "decreases", "inv-init", "inv-step", "cover", "frame"}
@@ -194,7 +196,11 @@ func init() {
 	reg(&PropSpec{ID: "C15", Title: "Client and server exchange frames intact (mechanisms only)", DesignRef: "DESIGN.md §4 C15",
 		Groups: []Group{
 			{Funcs: `^client\.newCql(Client|Server)Connection$|^\(\*client\.Cql(Client|Server)Connection\)\.(writeSegment|maybeSwitchToModernLayout)$|^\(\*client\.CqlClientConnection\)\.(addMultiSegmentPayload|readFrame)$|^\(\*client\.payloadAccumulator\)\.reset$`,
-				OnlyCt: true, AbstractConc: true, Classes: []string{"post", "pre", "nil", "index", "alloc", "typeassert", "frame", "cover"}},
+				OnlyCt: true, AbstractConc: true, Classes: []string{"post", "pre", "nil", "index", "alloc", "typeassert", "frame", "cover"},
+				// the in-flight table invariants that processIncomingFrame's contract (C10) requires are established by the
+				// constructor and kept by the handler operations; that the receive loop calls it in such a state is not part
+				// of C15's claim (listed as an assumption under C10)
+				SkipObl: `:pre:processIncomingFrame\.`},
 			// every envelope of a self-contained segment reaches the frame reader (only the postcondition is claimed here:
 			// the connection invariant across the reader's side effects is not re-established by these contracts)
 			{Funcs: `^\(\*client\.Cql(Client|Server)Connection\)\.readSelfContainedSegment$`, OnlyCt: true, AbstractConc: true, Classes: []string{"post", "cover"}},
@@ -271,15 +277,34 @@ func init() {
 func init() {
 	reg(&PropSpec{ID: "C09", Title: "Stream ids: unique while in flight, bounded, recycled, refused when exhausted (sequential mechanism)", DesignRef: "DESIGN.md §11 C09",
 		Groups: []Group{
-			{Funcs: `^client\.newInFlightRequestsHandler$|^\(\*client\.inFlightRequestsHandler\)\.(onOutgoingFrameEnqueued|onIncomingFrameReceived)$`, OnlyCt: true, AbstractConc: true,
-				Classes: []string{"post", "pre", "inv-init", "inv-step", "auto-inv-init", "auto-inv-step", "auto-decreases", "decreases", "cover", "panic", "alloc"}},
+			{Funcs: `^client\.(newInFlightRequestsHandler|isLastFrame)$|^\(\*client\.inFlightRequestsHandler\)\.(onOutgoingFrameEnqueued|onIncomingFrameReceived)$`, OnlyCt: true, AbstractConc: true,
+				Classes: []string{"post", "pre", "inv-init", "inv-step", "auto-inv-init", "auto-inv-step", "auto-decreases", "decreases", "cover", "panic", "alloc"},
+				SkipObl: `:post:c10_`},
 		},
 		Assume: []string{
 			"SEQUENTIAL MECHANISM ONLY: the statements hold for any sequence of handler operations executed one after another (the representation invariant poolInv is assumed and re-established by each: an induction over histories); interleavings of concurrent senders with the responder, the RW lock's role, timeouts and close are NOT decided - go statements are ignored and sync primitives are no-ops",
 			"the pool of free ids (a buffered chan int16) is modelled as a bounded multiset: FIFO order is abstracted (every real behaviour is a behaviour of the model); a blocking operation that cannot proceed ends the path; atomic loads/stores are plain loads/stores",
-			"ASSUMED about the per-request object (newInFlightRequest, startTimeout, onFrameReceived, close): they touch only their own request (assumes-assigns) and newInFlightRequest returns a fresh request carrying the given id and flag",
-			"proved: the constructor fills the pool with exactly 1..N once each; an accepted request has an id in 1..N (automatic) or its own id (explicit) that no unanswered request uses, the id leaves the pool, nothing else changes; exhaustion and duplicate explicit ids are refused; a refused request leaves table and pool unchanged (this obligation failed on the original tree: the borrowed id leaked - fixed); the final frame of a response frees the entry and, when accepted without error, returns an automatically assigned id to the pool; non-final frames and unknown ids change nothing",
+			"the per-request object (newInFlightRequest, startTimeout, onFrameReceived, close) is used through its contracts, which are proved under C10 (they touch only their own request; newInFlightRequest returns a fresh request carrying the given id and flag)",
+			"proved: a frame is final for its response unless it is a continuous-paging RESULT Rows page not flagged last (isLastFrame); the constructor fills the pool with exactly 1..N once each; an accepted request has an id in 1..N (automatic) or its own id (explicit) that no unanswered request uses, the id leaves the pool, nothing else changes; exhaustion and duplicate explicit ids are refused; a refused request leaves table and pool unchanged (this obligation failed on the original tree: the borrowed id leaked - fixed); the final frame of a response frees the entry and, when accepted without error, returns an automatically assigned id to the pool; non-final frames and unknown ids change nothing",
 			"NOT covered: that the release after the final frame cannot fail (needs the cardinality link len = sum of counts), the close() loop, N > 32767",
+		}})
+	reg(&PropSpec{ID: "C10", Title: "Responses reach exactly the request with the same stream id (sequential mechanism)", DesignRef: "DESIGN.md §11 C10",
+		Groups: []Group{
+			{Funcs: `^client\.(isLastFrame|newInFlightRequest)$|^\(\*client\.inFlightRequest\)\.(close|onFrameReceived|startTimeout)$`, OnlyCt: true, AbstractConc: true,
+				Classes: []string{"post", "pre", "frame", "cover", "panic", "alloc", "nil", "typeassert"}},
+			{Funcs: `^\(\*client\.inFlightRequestsHandler\)\.(onOutgoingFrameEnqueued|onIncomingFrameReceived)$`, OnlyCt: true, AbstractConc: true,
+				Classes: []string{"post", "pre", "frame", "cover", "panic"}, OnlyObl: `:post:c10_|:cover:`},
+			{Funcs: `^\(\*client\.CqlClientConnection\)\.processIncomingFrame$`, OnlyCt: true, AbstractConc: true,
+				Classes: []string{"post", "pre", "frame", "cover", "panic", "nil", "typeassert", "auto-inv-init", "auto-inv-step", "auto-decreases"}},
+		},
+		Assume: []string{
+			"SEQUENTIAL MECHANISM ONLY: each statement is about one call of one operation executed without interference; 'whatever the order in which the peer answers and however many requests are outstanding' is the induction over sequences of operations that the invariants poolInv, tableInv, chansDistinct and reqInv carry (each operation assumes and re-establishes them); interleavings of concurrent senders with the receive loop, the role of the locks, timer goroutines and close() racing with delivery are NOT decided (go statements ignored, sync primitives no-ops) - that part of C10 stays with C16's reason",
+			"a request's channel of frames is modelled as a bounded multiset of frame references (chancount(ch, f)); FIFO order is a property of Go channels, not of this code: 'pages in arrival order' is each page being queued by the call that received it, plus Go's channel semantics (TRUSTED)",
+			"proved: the request handed to the sender is the one registered under the frame's stream id, a fresh object with its own fresh empty channel; an incoming frame is queued exactly once on the channel of the request registered under the frame's id, whose streamId field equals that id, and the frame condition (assigns) shows no other request, channel or table entry changes; a frame with an unknown id is refused and changes nothing; the last frame (every frame except a continuous-paging RESULT Rows page not flagged last) completes the request - done, channel closed, no error - and any other frame leaves it registered and open; a refused delivery queues nothing; closing a request keeps queued frames readable and the first error",
+			"proved: EVENT frames go to the event channel (queued once if there is room, dropped otherwise) and change no table entry, no request and no request channel; every other frame goes to the in-flight handler and never to the event channel",
+			"ASSUMED: registered event handlers (user callbacks) do not touch the connection's table or channels; a context.CancelFunc affects only its context; ctx.Done() is a signal channel never sent on; zerolog calls have no effect; frames handed to these functions are well formed as the frame decoder produces them (header, body, message present; RESULT opcode carries a RESULT message; ERROR opcode an ERROR message); the event channel is no request's channel (made by the connection constructor)",
+			"ASSUMED: the receive path (readFrame) calls processIncomingFrame with the table invariants in force (they are established by the handler's constructor and re-established by every handler operation; the call site itself is not verified)",
+			"NOT covered: Send/Receive/ReceiveEvent wrappers, the receive loop, handler close(), timeouts; delivery when the same frame object is received twice is counted by multiplicity",
 		}})
 }
 
@@ -368,6 +393,20 @@ func hasProp(ct *Contract, id string) bool {
 		}
 	}
 	return false
+}
+
+// keepsObl: class filter plus the per-property split of clauses on functions shared by two properties.
+func (g *Group) keepsObl(ob *Obligation) bool {
+	if !g.keeps(ob.Class) {
+		return false
+	}
+	if g.SkipObl != "" && regexp.MustCompile(g.SkipObl).MatchString(ob.Name) {
+		return false
+	}
+	if g.OnlyObl != "" && (ob.Class == "post" || ob.Class == "cover") && !regexp.MustCompile(g.OnlyObl).MatchString(ob.Name) {
+		return false
+	}
+	return true
 }
 
 func (g *Group) keeps(class string) bool {
